@@ -20,6 +20,18 @@ public:
     overrun_++;
     return 0;
   }
+  // Independent second cursor reading from the END of the tape backwards (like
+  // FuzzedDataProvider's integrals): used for configuration choices that were
+  // added after tapes of a harness had been saved, so that the forward decode of
+  // old tapes is unchanged. 0 past the beginning.
+  size_t j_ = 0;
+  uint8_t tail_u8() {
+    if (j_ < n_)
+      return p_[n_ - 1 - j_++];
+    return 0;
+  }
+  bool tail_flag() { return tail_u8() & 1; }
+  unsigned tail_pick(unsigned n) { return n <= 1 ? 0 : tail_u8() % n; }
   bool exhausted() const { return i_ >= n_; }
   size_t consumed() const { return i_; }
   size_t overrun() const { return overrun_; }
